@@ -113,7 +113,7 @@ def run(ctx):
     daemon_file = None
     from . import c13real, sandbox
     if sandbox.available():
-        judged, _v, tls, tl_incon = c13real.run_timelines(ctx, [[[2.6, "answer"]]])
+        judged, _v, tls, tl_incon = c13real.run_timelines(ctx, [[[3.0, "answer"]]])
         import glob
         import json as _json
         outs = sorted(glob.glob(os.path.join(ctx.tmp, "tl-*.json")))
